@@ -25,6 +25,7 @@ def answer (line : String) : String :=
   | "S" :: _ => sLine ws
   | "B" :: _ => bLine ws
   | "L" :: _ => lLine ws
+  | "K" :: _ => kLine ws
   | "H" :: _ => hLine ws
   | "Q" :: _ => qLine ws
   | "QC" :: _ => qcLine ws
